@@ -18,7 +18,7 @@ RULE = ("random un-canted shots x look angle {0, +-0.5, +-5, +-30, +-45, +-59 de
         "distance exceeds 300 yd or the stored zero is non-zero")
 MUST_OBSERVE = ["zeroings", "zeroings_judged", "fire_backs", "look_level", "look_small", "look_steep", "with_wind",
                 "stored_zero_nonzero", "api_set_weapon_zero", "api_barrel_elevation", "raises_adjudicated", "unreachable_precondition", "raises_with_precondition_false",
-                "failures_zero_kept_checked", "zeroed_before_under_other_conditions", "powder_sensitive_zeroings", "bare_number_zero_distances"]
+                "failures_zero_kept_checked", "zeroed_before_under_other_conditions", "powder_sensitive_zeroings", "bare_number_zero_distances", "raises_under_configured_low_cap"]
 ASSUMPTIONS = ["'one integration step of travel' = the largest overshoot the zero finder's end condition permits: (min step + longest "
                "down-range advance of one step) / cos(trajectory angle), taken from the step trace of the fire-back; bound = accuracy + "
                "1.25 x (overshoot x |sin(relative angle)| + curvature remainder)",
@@ -202,7 +202,11 @@ def check_case(ctx, case):
         if shot.weapon.zero_elevation.raw_value != stored_before:
             ctx.violation("failed-zeroing-changed-stored-zero", f"{type(err).__name__} raised but the weapon's stored zero changed from "
                                                                 f"{stored_before!r} to {shot.weapon.zero_elevation.raw_value!r} rad", case)
-        if precondition_ok:
+        low_cap = (cfg or {}).get("cMaxIterations", 20) < 20
+        if precondition_ok and low_cap and isinstance(err, pb.ZeroFindingError) and err.iterations_count >= cfg["cMaxIterations"]:
+            # the user capped the search at 1-3 rounds: giving up with an error is what the statement asks for
+            ctx.count("raises_under_configured_low_cap")
+        elif precondition_ok:
             # adjudicate: was the target reachable?
             ctx.count("raises_adjudicated")
             acc = (cfg or {}).get("cZeroFindingAccuracy", 0.000005)
@@ -273,6 +277,9 @@ def gen_case(rng):
         case["bare_in"] = rng.choice(["Meter", "Foot", "Yard", "Inch", "Kilometer", "Centimeter"])
     if rng.random() < 0.15:
         case["config"] = rng.choice([{"max_calc_step_size_feet": 1.0}, {"cZeroFindingAccuracy": 1e-4}, {"max_calc_step_size_feet": 0.25}])
+    elif rng.random() < 0.08:
+        # a search capped at a few rounds: it either meets the accuracy or raises - it never returns a half-converged angle
+        case["config"] = {"cMaxIterations": rng.choice([1, 2, 3])}
     if rng.random() < 0.25 and d_yd <= 600:
         alt = s["atmo"].get("alt_ft", 0.0)
         case["prior_zero"] = {"winds": [[round(rng.uniform(10, 50), 1), rng.choice([0.0, 180.0]), None]],
